@@ -67,6 +67,15 @@ package storage
 //@     ensures !arg2 && old(gasfull(self)) ==> !result && gasfull(self)   // C09.gas
 //@     ensures !arg2 && !old(gasfull(self)) ==> result                    // C09.gas
 
+//@   method GetConsumed
+//@     modifies nothing
+//@   method GetLimit
+//@     modifies nothing
+//@   method IsEnough
+//@     modifies nothing
+//@   method GetLeft
+//@     modifies nothing
+
 //@ func (*gasCalculator).Consume
 //@   implements GasCalculator
 //@   modifies g.consumed
